@@ -476,6 +476,13 @@ Section Facts.
       eapply IH; eauto; try lia.
   Qed.
 
+  (* LU.solve with a 2-D right-hand side: every column of the result solves the system for that column of b *)
+  Theorem solve2_partial n m (a b y : nat -> nat -> A) :
+    (forall lu idx par, ludcmp RE n a = Ok (lu, idx, par) -> decomposes n a lu idx) ->
+    solve2 RE n m a b = Ok y ->
+    forall i j, (i < n)%nat -> (j < m)%nat -> bsum (fun k => a i k * y k j) n = b i j.
+  Proof. exact (invab_partial n m a b y). Qed.
+
   (* la.inv: a . inv(a) = identity, given the decomposition invariant *)
   Theorem inv_partial n (a y : nat -> nat -> A) :
     (forall lu idx par, ludcmp RE n a = Ok (lu, idx, par) -> decomposes n a lu idx) ->
@@ -553,6 +560,24 @@ Section Frame.
     forall p, (p < fresh)%nat -> s' p = s p.
   Proof.
     intros Ha Hb H p Hp. unfold invab_at, ludcmp_at in H. rewrite vupd_same in H.
+    apply bind_ok in H. destruct H as ([[s2 idx] par] & H1 & H).
+    apply bind_ok in H1. destruct H1 as ([[lu idx'] par'] & Hlu & H1). injection H1 as <- <- <-.
+    apply bind_ok in H. destruct H as (s5 & H5 & H). injection H as <- <-.
+    pose proof (fun Hf => foldM_frame _ fresh Hf _ _ _ H5 p Hp) as G.
+    rewrite G.
+    - rewrite !vupd_other by lia. reflexivity.
+    - intros s0 j s0' Hs q Hq. unfold lubksb_at in Hs.
+      apply bind_ok in Hs. destruct Hs as (s'' & Hs & E). injection E as <-.
+      apply bind_ok in Hs. destruct Hs as (x & _ & E). injection E as <-.
+      rewrite !vupd_other by lia. reflexivity.
+  Qed.
+
+  Theorem solve2_at_frame n m (s : store L) pa pb fresh s' px :
+    (pa < fresh)%nat -> (pb < fresh)%nat ->
+    solve2_at L n m s pa pb fresh = Ok (s', px) ->
+    forall p, (p < fresh)%nat -> s' p = s p.
+  Proof.
+    intros Ha Hb H p Hp. unfold solve2_at, ludcmp_at in H. rewrite vupd_same in H.
     apply bind_ok in H. destruct H as ([[s2 idx] par] & H1 & H).
     apply bind_ok in H1. destruct H1 as ([[lu idx'] par'] & Hlu & H1). injection H1 as <- <- <-.
     apply bind_ok in H. destruct H as (s5 & H5 & H). injection H as <- <-.
